@@ -182,6 +182,10 @@ func (c *c24Chan) SetFilter(net.BroadcastChannelFilter) error    { return nil }
 type c24Scenario struct {
 	Kinds  []string `json:"kinds"`
 	MaxLen int      `json:"max_len"`
+	// Flood: the history starts with FloodLen messages of kind Flood (one member
+	// flooding the window), then continues with up to MaxLen chosen messages.
+	Flood    string `json:"flood,omitempty"`
+	FloodLen int    `json:"flood_len,omitempty"`
 }
 
 type c24Obs struct {
@@ -221,12 +225,18 @@ func c24Body(w *c24World, sc c24Scenario, obs *c24Obs) func() {
 		// lasts, then the phase ends
 		vsched.GoNamed("net", func() {
 			vsched.Block("handler registered", func() bool { return bc.handler != nil })
-			for i := 0; i < sc.MaxLen; i++ {
-				c := vsched.Choose(len(kinds)+1, "msg")
-				if c == len(kinds) {
-					break
+			for i := 0; i < sc.FloodLen+sc.MaxLen; i++ {
+				var ki int
+				if i < sc.FloodLen {
+					ki = c24KindIndex(sc.Flood)
+				} else {
+					c := vsched.Choose(len(kinds)+1, "msg")
+					if c == len(kinds) {
+						break
+					}
+					ki = kinds[c]
 				}
-				k := c24Kinds[kinds[c]]
+				k := c24Kinds[ki]
 				m := &c24Msg{idx: i, obs: obs}
 				switch k.from {
 				case 'L':
@@ -257,7 +267,7 @@ func c24Body(w *c24World, sc c24Scenario, obs *c24Obs) func() {
 				if bc.ctx.Err() != nil {
 					break
 				}
-				obs.hist = append(obs.hist, kinds[c])
+				obs.hist = append(obs.hist, ki)
 				obs.proposals = append(obs.proposals, prop)
 				bc.handler(m)
 			}
@@ -387,15 +397,21 @@ func TestVerifC24(t *testing.T) {
 		}
 		// the recorded faults must be the pattern with any subset of the optional slots
 		// left out, in order
+		// (memoised: a flood of optional slots makes the plain recursion exponential)
+		memo := map[[2]int]bool{}
 		var match func(i, j int) bool
 		match = func(i, j int) bool {
 			if i == len(pattern) {
 				return j == len(got)
 			}
-			if j < len(got) && got[j] == pattern[i].fault && match(i+1, j+1) {
-				return true
+			k := [2]int{i, j}
+			if v, ok := memo[k]; ok {
+				return v
 			}
-			return !pattern[i].required && match(i+1, j)
+			v := j < len(got) && got[j] == pattern[i].fault && match(i+1, j+1) ||
+				!pattern[i].required && match(i+1, j)
+			memo[k] = v
+			return v
 		}
 		if !match(0, 0) {
 			var pat []string
@@ -476,16 +492,21 @@ func TestVerifC24(t *testing.T) {
 		bound int
 	}
 	runs := []run{
-		{c24Scenario{all, 4}, 0},
-		{c24Scenario{all, 3}, 1},
-		{c24Scenario{core, 3}, 2},
+		{c24Scenario{Kinds: all, MaxLen: 4}, 0},
+		{c24Scenario{Kinds: all, MaxLen: 3}, 1},
+		{c24Scenario{Kinds: core, MaxLen: 3}, 2},
+		// one member floods the window with fault-producing messages before the rest
+		{c24Scenario{Kinds: []string{"AO", "V", "DA", "LO"}, MaxLen: 2, Flood: "LO", FloodLen: 40}, 0},
+		{c24Scenario{Kinds: []string{"AO", "V", "DA", "LO"}, MaxLen: 1, Flood: "AOda", FloodLen: 40}, 0},
 	}
 	if r.Thorough() {
 		runs = []run{
-			{c24Scenario{all, 5}, 0},
-			{c24Scenario{all, 4}, 1},
-			{c24Scenario{all, 3}, 2},
-			{c24Scenario{core, 3}, 3},
+			{c24Scenario{Kinds: all, MaxLen: 5}, 0},
+			{c24Scenario{Kinds: all, MaxLen: 4}, 1},
+			{c24Scenario{Kinds: all, MaxLen: 3}, 2},
+			{c24Scenario{Kinds: core, MaxLen: 3}, 3},
+			{c24Scenario{Kinds: []string{"AO", "V", "DA", "LO", "AL"}, MaxLen: 2, Flood: "LO", FloodLen: 40}, 1},
+			{c24Scenario{Kinds: []string{"AO", "V", "DA", "LO", "AL"}, MaxLen: 2, Flood: "AOda", FloodLen: 600}, 0},
 		}
 	}
 	shard, shards := r.Shard()
@@ -512,7 +533,7 @@ func TestVerifC24(t *testing.T) {
 			}
 			st := vsched.Explore(vsched.Options{Bound: bound, Shard: shard, Shards: shards, Stop: r.Expired},
 				c24Body(w, sc, &obs), func(s *vsched.Sched) { evaluate(sc, bound, s) })
-			r.Set(fmt.Sprintf("k%d.len%d.bound%d_execs", len(sc.Kinds), sc.MaxLen, bound), st.Execs)
+			r.Set(fmt.Sprintf("k%d.len%d.flood%d.bound%d_execs", len(sc.Kinds), sc.MaxLen, sc.FloodLen, bound), st.Execs)
 			if st.Stopped {
 				r.Cap(fmt.Sprintf("kinds %d len %d bound %d not completed", len(sc.Kinds), sc.MaxLen, bound))
 			}
